@@ -42,7 +42,7 @@ def run(rep, tier):
     for name, canon, ar in ug:
         for n in ([1, 65, 130] if ar == 1 else [2, 65, 130]):
             poss = sorted(set([0, min(63, n - 1), min(64, n - 1), n - 1]))
-            for W in ([64] if quick and n != 130 else [64, 128, 256]):
+            for W in ([rng.choice([64, 128, 256])] if quick and n != 130 else [64, 128, 256]):
                 bg = list(gen.rand_pauli(rng, n, 0.5))
                 if ar == 1:
                     for q in poss:
